@@ -12,7 +12,7 @@ Scripts == << <<47,115,121,110,99>>, <<47,97,115,121,110,99>>, <<47,102,105,108,
 VARIABLES l, start
 tvars == <<cvars, l, start>>
 Ev == TraceLog[l]
-Is(name) == l <= NLines /\ Ev.e = name /\ l' = l + 1 /\ start' = start /\ PrintT(<<"AT", start, l>>)
+Is(name) == l <= NLines /\ Ev.e = name /\ l' = l + 1 /\ start' = start
 
 Decodes(e) == CASE e.proto = "http" -> HttpDecode(e.bytes, Scripts).ok
                 [] e.proto = "scgi" -> ScgiDecode(e.bytes).ok
@@ -37,6 +37,7 @@ AbsOf(e) == [m |-> e.m, script |-> e.script, path |-> e.path, hasq |-> e.hasq, q
 TProbe == Is("Probe") /\ Probe(Matches(Ev.o, Reference(AbsOf(Ev))))
 
 TraceInit == CInit /\ l \in { i \in 1..NLines : TraceLog[i].e = "Reset" } /\ start = l
-TraceNext == TReset \/ TConn \/ TPrepare \/ TComplete \/ TSetup \/ THandler \/ TOnError \/ TReply \/ TProbe
+TraceNext == /\ (TReset \/ TConn \/ TPrepare \/ TComplete \/ TSetup \/ THandler \/ TOnError \/ TReply \/ TProbe)
+             /\ PrintT(<<"AT", start, l>>)          \* reached only when line l was matched
 TraceSpec == TraceInit /\ [][TraceNext]_tvars
 =============================================================================
